@@ -40,3 +40,68 @@ for name, a in [("lrucache.get", ("get", False, True)), ("lrucache.getitem", ("_
     h = H(*a)
     h.name = name
     REGISTRY[name] = h
+
+
+class GhostLock:
+    """threading.Lock with the two ghost flags of the contract readable: `_g_locked` (held by anybody), `_g_mine` (held by the caller)"""
+
+    def __init__(self, held_by_other=False):
+        import threading
+        self._l = threading.Lock()
+        self._g_mine = False
+        if held_by_other:
+            self._l.acquire()
+
+    @property
+    def _g_locked(self):
+        return self._l.locked()
+
+    def acquire(self, blocking=True, timeout=-1):
+        r = self._l.acquire(blocking, timeout)
+        if r:
+            self._g_mine = True
+        return r
+
+    def release(self):
+        self._l.release()
+        self._g_mine = False
+
+
+class AlertBoom(Exception):
+    pass
+
+
+class ManageSize:
+    name = "lrucache.manage_size"
+    scope = ("cache with capacity 0..3 x threshold {0, .5, 1.0} x 0..8 entries (counters in insertion order, or reversed) x size_alert in "
+             "{None, returns, raises} x mutex {free, held by another thread}")
+
+    def enumerate(self, tier):
+        for cap in (0, 1, 2, 3):
+            for thr in (0, .5, 1.0):
+                for n in range(0, 9 if tier != "quick" else 7):
+                    for alert in ("none", "ok", "raise"):
+                        for locked in (False, True):
+                            for rev in (False, True):
+                                yield dict(cap=cap, thr=thr, n=n, alert=alert, locked=locked, rev=rev)
+
+    def build(self, desc):
+        calls = []
+
+        def ok(cache):
+            calls.append(len(cache))
+
+        def boom(cache):
+            calls.append(len(cache))
+            raise AlertBoom("size_alert hook failed")
+        alert = {"none": None, "ok": ok, "raise": boom}[desc["alert"]]
+        c = LRUCache(capacity=desc["cap"], threshold=desc["thr"], size_alert=alert)
+        ks = KEYS + ["g", "h", "i"]
+        order = ks[:desc["n"]]
+        for k in (reversed(order) if desc["rev"] else order):
+            c._data[k] = (k, ("v", k), [c._inc_counter()])
+        c._mutex = GhostLock(held_by_other=desc["locked"])
+        return CallSpec(c._manage_size, {}, args=(), self_obj=c, universe=ks)
+
+
+REGISTRY[ManageSize.name] = ManageSize()
